@@ -19,7 +19,7 @@ From RTA.Model Require Import Base FixedPoint Ros2.
 From RTA.Spec Require Import Exhaustive ExhaustiveRos.
 From RTA.Model Require Import Supply Eval.
 From RTA.Spec Require Import Reservation Executor.
-From RTA.Proofs Require Import SupplyProofs StepsProofs ExhFP ExhRos MonoProofs EsSound RrSound BwSound.
+From RTA.Proofs Require Import SupplyProofs StepsProofs ExhFP ExhRos MonoProofs EsSound RrSound BwSound RrBwGeneralCosts.
 
 Theorem C05_partial_rr_is_its_defining_inequalities : forall sbf st, sbf_ok sbf -> exact_inverse sbf st ->
   forall dbg wl sc limit (bound : N -> N),
@@ -70,3 +70,18 @@ Theorem C05_bw_sound_any_priority_order : forall dbg sb (wl : wlT) limit cbs cos
   forall H c a f, In (c, a, f) (finished (run cbs cost_of H arr sigma)) -> (f - a <= N.to_nat (wl_R wl c))%nat.
 Proof. exact bw_sound_any_order. Qed.
 Definition C05_bw_sound_nonvacuous := bw_sound_nonvacuous.
+
+(* ---- GENERAL JOB-COST MODELS (Proofs/RrBwGeneralCosts.v): wl_ok_gen replaces the scalar requirement by wf_cm; costs_ok_gen: every
+        instance costs at least 1 and every block of m consecutive instances of a callback costs at most cost_of_jobs(m).  The marginal
+        cost cost(n+1) - cost(n) of the instance under analysis is never charged on its own: together with the n earlier instances it
+        forms one block of n + 1 consecutive instances.  Non-concave models included; the scalar theorems are corollaries. ---- *)
+Theorem C05_rr_sound_general_costs : forall dbg sb (wl : wlT) limit cbs cost_of arr sigma,
+  wf_sb sb -> supply_admits sb sigma ->
+  wl_ok_gen wl -> cbs_match wl cbs -> arrivals_ok wl arr -> costs_ok_gen wl cost_of ->
+  (forall i, (i < length wl)%nat -> e_rr dbg sb wl [i] limit = ROk (wl_R wl i)) ->
+  forall H c a f, In (c, a, f) (finished (run cbs cost_of H arr sigma)) -> (f - a <= N.to_nat (wl_R wl c))%nat.
+Proof. exact rr_sound_gen. Qed.
+Definition C05_bw_sound_general_costs := bw_sound_gen.
+Definition C05_bw_sound_general_costs_any_priority_order := bw_sound_gen_any_order.
+Definition C05_rr_general_costs_nonvacuous := rr_sound_gen_nonvacuous.
+Definition C05_bw_general_costs_nonvacuous := bw_sound_gen_nonvacuous.
